@@ -104,6 +104,11 @@ def run(ctx):
     ctx.require_min(R3, 12)
     from rules import _lints
     _lints.both_switch_ends(ctx, "FUSE-BOTH-ENDS")
+    from rules import C31
+    RK = "TABLE-ORDER"
+    ctx.rule(RK, "permuting the rows of trafo_characteristic_table (or of the transformer table) changes nothing: columns of the merged "
+                 "characteristic frame reach the transformers only through a lookup keyed by (id, step), never positionally")
+    C31.rule_keyed_assignment(ctx, RK)
     R5 = "IS-FACTOR"
     ctx.rule(R5, "adding an out-of-service element changes nothing: every term _calc_shunts_and_add_on_ppc accumulates inside an "
                  "element block is multiplied by that element's in-service mask")
@@ -120,6 +125,7 @@ def variants(repo):
     rb = "pandapower/results_branch.py"
     V = Variant
     return [
+        V("vk taken in table order", bb, in_function("_get_vk_values_from_table", lambda s: s.replace("            vk_new = [vk_mapping.get(key, 1) for key in zip(cleaned_id_characteristic, cleaned_step)]\n", "            vk_new = filtered_df[vk_var].values\n", 1)), "TABLE-ORDER"),
         V("table shunt without in-service mask", _bbu, replace_once('p = p + s["p_mw_table"].fillna(0).to_numpy() * v_ratio * vl', 'p = p + s["p_mw_table"].fillna(0).to_numpy() * v_ratio'), "IS-FACTOR"),
         V("dc line resistance without parallel", bb, replace_once('branch_dc[f:t, DC_BR_R] = line_dc["r_ohm_per_km"].values * length_km / baseR / parallel', 'branch_dc[f:t, DC_BR_R] = line_dc["r_ohm_per_km"].values * length_km / baseR'), "line-dc"),
         V("tcsc to-bus not remapped", pd, lambda s: re.sub(r'\n    ppc\["tcsc"\]\[:, TCSC_T_BUS\] = e2i\[[^\n]*\n', "\n", s, count=1), "tcsc.TCSC_T_BUS"),
